@@ -69,13 +69,13 @@ fn ngroups_g<F: Fl, Sh: Shape<F>>() -> usize {
     Sh::ngroups()
 }
 pub fn levels(shape: &str) -> Vec<String> {
-    if shape.starts_with("DV") {
+    if shape.starts_with("DV") || shape == "-" {
         return vec![shape.to_string()];
     }
     with_shape!(shape, S, levels_g, ())
 }
 pub fn paths(shape: &str) -> Vec<String> {
-    if shape.starts_with("DV") {
+    if shape.starts_with("DV") || shape == "-" {
         return vec![];
     }
     with_shape!(shape, S, paths_g, ())
@@ -121,6 +121,9 @@ where
 {
     let kind = spec.kind.as_str();
     let pres = spec.pres;
+    if kind.starts_with("drv:") {
+        return crate::drivers::run_driver::<F>(kind, pres);
+    }
     if kind.starts_with("dv:") {
         use nalgebra::{Const, Dyn};
         return match spec.shape.as_str() {
